@@ -458,6 +458,7 @@ func (rc *runCtx) runOne(ld *gossa.Loaded, g *group, pkgName string, h HSpec, wo
 		rc.broken = append(rc.broken, h.Func+": "+msg)
 	}
 	// incomplete paths
+	hangs := 0
 	for i, inc := range hr.Incomplete {
 		if h.Hang && (strings.HasPrefix(inc, "steps:") || strings.HasPrefix(inc, "unwind:")) {
 			if strings.Contains(inc, "wall-clock deadline") {
@@ -465,6 +466,11 @@ func (rc *runCtx) runOne(ld *gossa.Loaded, g *group, pkgName string, h HSpec, wo
 				continue
 			}
 			// termination is the property: candidate violation, replay under a watchdog
+			// (each replay waits for the watchdog, so only the first two per harness are replayed)
+			hangs++
+			if hangs > 2 {
+				continue
+			}
 			rc.candidate(g, pkgName, h, params, gossa.Violation{Label: "non-termination: " + inc, Kind: "hang", Model: hr.IncompleteM[i]})
 			continue
 		}
